@@ -6,6 +6,7 @@ package main
 import (
 	"encoding/binary"
 	"encoding/hex"
+	"encoding/json"
 	"errors"
 	"fmt"
 	"math/big"
@@ -13,7 +14,11 @@ import (
 	"time"
 
 	"cosmossdk.io/collections"
+	"cosmossdk.io/log"
 	sdkmath "cosmossdk.io/math"
+	abci "github.com/cometbft/cometbft/abci/types"
+	cryptoenc "github.com/cometbft/cometbft/crypto/encoding"
+	dbm "github.com/cosmos/cosmos-db"
 	"github.com/cosmos/cosmos-sdk/crypto/keys/ed25519"
 	sdk "github.com/cosmos/cosmos-sdk/types"
 	sdkerrors "github.com/cosmos/cosmos-sdk/types/errors"
@@ -30,6 +35,9 @@ import (
 	stakingtypes "github.com/cosmos/cosmos-sdk/x/staking/types"
 	"github.com/ethereum/go-ethereum/common"
 	"github.com/ethereum/go-ethereum/crypto"
+	"github.com/functionx/fx-core/v8/app"
+	fxtypes "github.com/functionx/fx-core/v8/types"
+	"github.com/spf13/viper"
 
 	fxgovkeeper "github.com/functionx/fx-core/v8/x/gov/keeper"
 	migratetypes "github.com/functionx/fx-core/v8/x/migrate/types"
@@ -63,26 +71,31 @@ type Op struct {
 	Signer int    `json:"signer,omitempty"` // key that signs
 	SF     int    `json:"sf,omitempty"`     // the (from, to) pair that is signed
 	ST     int    `json:"st,omitempty"`
+	D1     int64  `json:"d1,omitempty"`  // govparams: max deposit period (ns)
+	D2     int64  `json:"d2,omitempty"`  // govparams: voting period (ns)
 	Res    string `json:"res,omitempty"` // filled by the executor
 }
 
 type Hist struct {
-	c     *lib.Chain
-	ids   *Ids
-	seed  int64
-	keys  []lib.Key
-	ops   []Op
-	cw    *CaseWriter
-	rep   *lib.Report
-	cur   *Snap // snapshot of the current open-block state, nil if stale
-	cfg   string
-	tags  map[string]bool // what happened in this history (for the non-triviality rule)
-	moved map[int]int     // accepted migrations: source actor -> target actor
-	mon   *Monitor
+	c        *lib.Chain
+	ids      *Ids
+	seed     int64
+	keys     []lib.Key
+	ops      []Op
+	cw       *CaseWriter
+	rep      *lib.Report
+	cur      *Snap // snapshot of the current open-block state, nil if stale
+	cfg      string
+	tags     map[string]bool // what happened in this history (for the non-triviality rule)
+	moved    map[int]int     // accepted migrations: source actor -> target actor
+	mon      *Monitor
+	quiet    bool         // do not emit correspondence cases for gov transactions (scale histories)
+	used     map[int]bool // actors that took part in an accepted migration, remembered outside every store
+	imported bool         // the application was rebuilt from an exported genesis: no further blocks
 }
 
 func NewHist(seed int64, cw *CaseWriter, rep *lib.Report) *Hist {
-	h := &Hist{c: lib.NewChain(seed, 3, nil), ids: NewIds(), seed: seed, cw: cw, rep: rep, tags: map[string]bool{}, moved: map[int]int{}}
+	h := &Hist{c: lib.NewChain(seed, 3, nil), ids: NewIds(), seed: seed, cw: cw, rep: rep, tags: map[string]bool{}, moved: map[int]int{}, used: map[int]bool{}}
 	for i := 0; i < nActor; i++ {
 		var k lib.Key
 		switch {
@@ -101,12 +114,16 @@ func NewHist(seed int64, cw *CaseWriter, rep *lib.Report) *Hist {
 		h.ids.Reg(k.Acc(), int64(i+1), true)
 	}
 	lib.Must(h.c.NextBlock())
+	h.setCfg()
+	h.mon = NewMonitor(h)
+	return h
+}
+
+func (h *Hist) setCfg() {
 	gp, err := h.c.App.GovKeeper.Keeper.Params.Get(h.c.Ctx)
 	lib.Must(err)
 	h.cfg = fmt.Sprintf("(CFG 0 %d %d %d %d %s %s)", idPoolNB, idGov, gp.MaxDepositPeriod.Nanoseconds(), gp.VotingPeriod.Nanoseconds(),
 		zb(sdk.NewCoins(gp.MinDeposit...).AmountOf("FX").BigInt()), lib.Bool(gp.BurnProposalDepositPrevote))
-	h.mon = NewMonitor(h)
-	return h
 }
 
 func (h *Hist) id(i int) int64               { return int64(i + 1) }
@@ -220,6 +237,55 @@ func (h *Hist) Exec(op Op) Op {
 		if err == nil {
 			h.tags["vesting-source"] = true
 		}
+	case "govparams":
+		// governance changes its own periods through the real MsgUpdateParams
+		gp, err := c.App.GovKeeper.Keeper.Params.Get(c.Ctx)
+		lib.Must(err)
+		d1, d2 := time.Duration(op.D1), time.Duration(op.D2)
+		gp.MaxDepositPeriod, gp.VotingPeriod = &d1, &d2
+		err = try(func(ctx sdk.Context) error {
+			_, e := gms.UpdateParams(ctx, &govv1.MsgUpdateParams{Authority: authtypes.NewModuleAddress(govtypes.ModuleName).String(), Params: gp})
+			return e
+		})
+		h.cur, op.Res = nil, res(err)
+		h.setCfg()
+	case "exportimport":
+		// the chain is restarted from an exported genesis: real app-level export, a fresh application on an
+		// empty database, real InitChain. Only transactions can follow (no further blocks in this harness).
+		pre := h.snap()
+		exported, err := c.App.ExportAppStateAndValidators(false, []string{}, []string{})
+		if err != nil {
+			op.Res = "err: export: " + err.Error()
+			break
+		}
+		appState := allowLocalhostClient(exported.AppState)
+		na := app.New(log.NewNopLogger(), dbm.NewMemDB(), nil, true, map[int64]bool{}, fxtypes.GetDefaultNodeHome(), viper.New())
+		var vals []abci.ValidatorUpdate
+		for _, v := range exported.Validators {
+			pk, e := cryptoenc.PubKeyToProto(v.PubKey)
+			lib.Must(e)
+			vals = append(vals, abci.ValidatorUpdate{PubKey: pk, Power: v.Power})
+		}
+		err = func() (err error) {
+			defer func() {
+				if r := recover(); r != nil {
+					err = fmt.Errorf("PANIC in InitChain: %v", r)
+				}
+			}()
+			_, e := na.InitChain(&abci.RequestInitChain{Time: c.Time, ConsensusParams: &exported.ConsensusParams, Validators: vals,
+				AppStateBytes: appState, InitialHeight: exported.Height})
+			return e
+		}()
+		if err != nil {
+			op.Res = "err: import: " + err.Error()
+			break
+		}
+		nctx := na.GetContextForFinalizeBlock(nil).WithBlockTime(c.Ctx.BlockTime()).WithBlockHeight(exported.Height)
+		h.c = &lib.Chain{App: na, Ctx: nctx, Seed: c.Seed, Height: exported.Height, Time: c.Time}
+		h.cur, h.imported, op.Res = nil, true, "ok"
+		post := h.snap()
+		h.cw.Add(pre, "CExportImport", "OOk", post, h.cfg)
+		h.mon.AfterImport(op, pre, post)
 	case "mint":
 		c.Mint(h.acc(op.A), sdk.NewCoin(op.Denom, amt(op.Amt)))
 		h.cur, op.Res = nil, "ok"
@@ -293,13 +359,16 @@ func (h *Hist) Exec(op Op) Op {
 		h.cur, op.Res = nil, res(err)
 		h.mon.AfterSlash(op, pre, h.snap(), err)
 	case "submit":
-		pre := h.snap()
+		var pre *Snap
+		if !h.quiet {
+			pre = h.snap()
+		}
 		err := try(func(ctx sdk.Context) error {
 			_, e := gms.SubmitProposal(ctx, &govv1.MsgSubmitProposal{Messages: textMsgs(), InitialDeposit: sdk.NewCoins(sdk.NewCoin("FX", amt(op.Amt))), Proposer: h.acc(op.A).String(), Title: "title", Summary: "description"})
 			return e
 		})
 		h.cur, op.Res = nil, res(err)
-		if err == nil {
+		if err == nil && !h.quiet {
 			h.cw.Add(pre, fmt.Sprintf("CSubmit %s %s", z(h.id(op.A)), zb(amt(op.Amt).BigInt())), "OOk", h.snap(), h.cfg)
 		}
 	case "deposit":
@@ -309,7 +378,7 @@ func (h *Hist) Exec(op Op) Op {
 			return e
 		})
 		h.cur, op.Res = nil, res(err)
-		if err == nil {
+		if err == nil && !h.quiet {
 			h.cw.Add(pre, fmt.Sprintf("CDeposit %s %d %s", z(h.id(op.A)), op.Pid, zb(amt(op.Amt).BigInt())), "OOk", h.snap(), h.cfg)
 		}
 	case "vote":
@@ -319,7 +388,7 @@ func (h *Hist) Exec(op Op) Op {
 			return e
 		})
 		h.cur, op.Res = nil, res(err)
-		if err == nil {
+		if err == nil && !h.quiet {
 			h.cw.Add(pre, fmt.Sprintf("CVote %s %d", z(h.id(op.A)), op.Pid), "OOk", h.snap(), h.cfg)
 		}
 	case "block":
@@ -386,6 +455,7 @@ func (h *Hist) Exec(op Op) Op {
 			h.tags["refused-locked"] = true
 		}
 		if err == nil && op.A != op.B {
+			h.used[op.A], h.used[op.B] = true, true
 			h.moved[op.A] = op.B
 			h.tags["migrated"] = true
 			nd, nu := 0, 0
@@ -520,3 +590,32 @@ type replayT struct {
 }
 
 func (h *Hist) replay() replayT { return replayT{Seed: h.seed, Ops: append([]Op{}, h.ops...)} }
+
+// allowLocalhostClient: the exported ibc genesis contains the 09-localhost client that ibc-go creates by itself,
+// while the exported client params do not allow that type, so ibc's InitGenesis refuses its own export. The
+// type is added to the allow list (nothing else of the exported state is touched).
+func allowLocalhostClient(state []byte) []byte {
+	var m map[string]json.RawMessage
+	lib.Must(json.Unmarshal(state, &m))
+	var ibc map[string]json.RawMessage
+	if json.Unmarshal(m["ibc"], &ibc) != nil {
+		return state
+	}
+	var cg map[string]json.RawMessage
+	if json.Unmarshal(ibc["client_genesis"], &cg) != nil {
+		return state
+	}
+	var params struct {
+		AllowedClients []string `json:"allowed_clients"`
+	}
+	if json.Unmarshal(cg["params"], &params) != nil {
+		return state
+	}
+	params.AllowedClients = append(params.AllowedClients, "09-localhost")
+	cg["params"], _ = json.Marshal(params)
+	ibc["client_genesis"], _ = json.Marshal(cg)
+	m["ibc"], _ = json.Marshal(ibc)
+	out, err := json.Marshal(m)
+	lib.Must(err)
+	return out
+}
